@@ -1,6 +1,7 @@
 import OH.Model.CompactCalendar
 import OH.Model.Eval
 import OH.Model.Country
+import OH.Model.Inflate
 /-
 Model of the embedded holiday data base (property C10):
 
@@ -17,12 +18,17 @@ Model of the embedded holiday data base (property C10):
 One Lean definition per Rust function / std operation, same control flow, panics and build errors
 explicit (`Except String`, the string names the site).
 
-THE modelling assumption (DESIGN §5 C10): the deflate layer is not modelled.  `build.rs` writes the
-stream through `flate2::write::DeflateEncoder`, `decode_holidays_db` reads it through
-`flate2::bufread::DeflateDecoder`; the model hands the byte string `encodeDb` produced directly to
-`decodeDb`, i.e. it assumes `inflate (deflate bs) = bs` and that the decoder serves `read_exact`
-exactly these bytes in order.  (Also assumed, as everywhere: `env!`/`include_bytes!` hand the build
-script's output unchanged to the crate.)
+The deflate layer.  `build.rs` writes the stream through `flate2::write::DeflateEncoder`,
+`decode_holidays_db` reads it through `flate2::bufread::DeflateDecoder`.  The ENCODER (miniz_oxide's
+compressor, `Compression::best()`) is not modelled and nothing is assumed about it: `encodeDb` is what
+`build.rs` hands to the encoder, `decodeDb` is what `decode_holidays_db` does with the bytes the
+decoder serves, and `decodeHolidaysDb` below puts the model of the DECODER (`OH.Model.Inflate`,
+RFC 1951) in front of it.  That the compressed bytes really embedded in the binary (`include_bytes!`,
+exported by the guarded hook `Country::verif_holiday_db`) inflate to exactly `encodeDb` of the
+source file is CHECKED on every run by the driver (`hol.raw`), and it is the hypothesis of the
+theorems of `OH/Props/C10I.lean`; no `inflate (deflate bs) = bs` is assumed any more.  What is left:
+the real decoder is compared with the Lean `inflate` only through what comes out of it (the
+exhaustive calendar dumps of `hol.cal`), and it serves `read_exact` the inflated bytes in order.
 
 Other modelling remarks:
 * `NaiveDate::parse_from_str(s, "%Y-%m-%d")` is modelled ONLY on the shape present in the files:
@@ -164,9 +170,19 @@ def decodeRegions : List String → List Nat → Except String CountryMap
         | none => .ok tl                               -- `return None`
         | some country => .ok ((country, calendar) :: tl)
 
-/-- `decode_holidays_db(countries, encoded_data)` (after inflation, see the header) -/
+/-- `decode_holidays_db(countries, encoded_data)` on the bytes the `DeflateDecoder` serves -/
 def decodeDb (countries : String) (data : List Nat) : Except String CountryMap :=
   decodeRegions ((splitComma countries.toList).map String.ofList) data
+
+/-- `decode_holidays_db(countries, encoded_data)` on the embedded pair itself:
+`DeflateDecoder::new(encoded_data)`, then the loop.  The Rust reader inflates lazily while
+`deserialize` pulls bytes; the model inflates the whole stream first (an error of the decoder after
+the last calendar would be an error here and unnoticed there; on a stream that inflates — what the
+driver checks on the embedded bytes — the two read the same bytes). -/
+def decodeHolidaysDb (countries : String) (encodedData : ByteArray) : Except String CountryMap :=
+  match Inflate.inflateNat encodedData with
+  | .error e => .error e
+  | .ok data => decodeDb countries data
 
 /-- `HashMap::get`: the last inserted pair with this key -/
 def mapGet : CountryMap → String → Option CompactCalendar
